@@ -1,5 +1,6 @@
 """C04 - every schedule terminates with the same result; no wake-up is lost."""
 import random, json, itertools
+import os
 import vlib, rel, conc
 
 MC = [
@@ -168,11 +169,112 @@ def threaded_family(rep, tier, rng):
     rep.cov["distinct_nontrivial"] += stores
 
 
+def exec_stack_family(rep, tier):
+    """Every transition of ExecStack.tla's state graph (one shortest history per state, printed per transition)
+    is replayed into the real ExecutionStack through scripted Effects; TraceExecStack.tla re-runs the model
+    along what the real stack did (the Effects call it made, the control flow it returned)."""
+    total = 0
+    for n in ((2, 3) if tier == "quick" else (2, 3, 4)):
+        steps = 7 if tier == "quick" else 9
+        cfg = (f"SPECIFICATION Spec\nCONSTANTS N = {n}\n  MaxSteps = {steps}\n  AllowMidExhaust = TRUE\nCONSTRAINT Bound\nVIEW View\n"
+               "ACTION_CONSTRAINT EmitHist\nINVARIANTS WellFormed NoInternalError FinishedMeansSinkFinalized\n"
+               "PROPERTIES PendingKeepsInstruction\nCHECK_DEADLOCK FALSE\n")
+        g = vlib.tlc("ExecStack", cfg, f"C04-es{n}", workers=4, timeout=900, args=["-coverage", "1"])
+        if g.error:
+            rep.tool_error(f"ExecStack N={n}: {g.error}")
+            continue
+        rep.add_tlc(g, f"MC+GEN ExecStack.tla N={n} (one behaviour per transition)")
+        if g.violated:
+            rep.mismatch({"family": "mc", "module": "ExecStack", "violated": g.violated}, {"tail": g.out[-2000:]})
+        hists = [p["hist"] for p in g.printed if isinstance(p, dict) and "hist" in p]
+        cases = [{"id": i, "kind": "exec_stack", "n": n, "polls": [h[2] for h in hist]} for i, hist in enumerate(hists)]
+        res = vlib.Driver(nworkers=8, case_timeout=30).run(cases)
+        lines = []
+        for c, r, hist in zip(cases, res, hists):
+            steps_obs = r.get("steps") if r else None
+            if steps_obs is None:
+                rep.mismatch({"family": "execstack", "why": "outcome", "observed": "abort"}, {"polls": c["polls"], "result": r})
+                continue
+            lines.append({"id": c["id"], "n": n, "steps": steps_obs, "expect": len(hist)})
+        total += len(lines)
+        wd = vlib.workdir(f"C04-es-tv{n}")
+        path = vlib.os.path.join(wd, "trace.ndjson")
+        vlib.write_ndjson(path, lines)
+        r = vlib.tlc("TraceExecStack", f"SPECIFICATION TSpec\nPOSTCONDITION Accepted\nCHECK_DEADLOCK FALSE\nCONSTANTS N = {n}\n", f"C04-es-tvrun{n}",
+                     env={"TRACE": path}, workers=1, timeout=900, deque=True)
+        if r.error or not r.ok:
+            rep.tool_error(f"TraceExecStack N={n}: {r.error or r.violated}: {r.out[-500:]}")
+            continue
+        rep.add_tlc(r, f"TV execution stack N={n}", trace_lines=len(lines))
+        for m in [p for p in r.printed if isinstance(p, dict) and "mismatch" in p]:
+            rep.mismatch({"family": "execstack", "why": "deviates-from-model", "n": n}, {"polls": cases[m["mismatch"]]["polls"], "observed": m.get("steps"), "step": m.get("step")})
+    rep.cov["families"]["execstack"] = {"behaviours_replayed": total}
+    rep.cov["evaluations"] += total
+    rep.cov["distinct_nontrivial"] += total
+
+
+DFS_SQL = [
+    ("left_join", "SELECT * FROM A s1 LEFT JOIN B s2 ON s1.a = s2.a"),
+    ("semi_join", "SELECT * FROM A s1 WHERE s1.a IN (SELECT a FROM B)"),
+    ("group_distinct", "SELECT a, count(DISTINCT b), sum(b) FROM A GROUP BY a"),
+    ("sort_limit", "SELECT a, b FROM A ORDER BY a DESC, b LIMIT 2"),
+    ("union_cte", "WITH x AS (SELECT a FROM A) SELECT * FROM x UNION ALL SELECT a FROM B"),
+]
+
+
+def dfs_family(rep, tier):
+    """Poll-granularity interleavings enumerated depth-first over the IMPLEMENTATION's enabled sets (each leaf is a
+    re-execution from the start under a choice prefix; pipeline state cannot be snapshotted). Every leaf must
+    terminate (no hang state) and return the same bag of rows."""
+    budget = 120 if tier == "quick" else 4000
+    setup = [{"sql": "CREATE TEMP TABLE A (a INT, b INT)"}, {"sql": "CREATE TEMP TABLE B (a INT, b INT)"},
+             {"sql": "INSERT INTO A VALUES (1, 1)"}, {"sql": "INSERT INTO A VALUES (2, NULL)"}, {"sql": "INSERT INTO A VALUES (1, 3)"},
+             {"sql": "INSERT INTO B VALUES (1, 5)"}, {"sql": "INSERT INTO B VALUES (3, 6)"}]
+    total, parked = 0, 0
+    for name, sql in DFS_SQL:
+        stack, leaves, results = [[]], 0, {}
+        while stack and leaves < budget:
+            batch = [stack.pop() for _ in range(min(len(stack), 28))]
+            cases = [{"id": i, "rt": {"kind": "det", "partitions": 2, "choices": pre, "fallback": "first", "max_steps": 4000},
+                      "steps": setup + [{"sql": sql, "sched": True}], "timeout": 30} for i, pre in enumerate(batch)]
+            res = vlib.Driver(nworkers=14, case_timeout=30).run(cases)
+            for pre, r in zip(batch, res):
+                leaves += 1
+                if r is None or "steps" not in r:
+                    rep.mismatch({"family": "dfs", "query": name, "observed": "abort"}, {"sql": sql, "choices": pre, "result": r})
+                    continue
+                o = r["steps"][-1][-1]
+                sc = o.get("sched", {})
+                counts = sc.get("enabled_counts", [])
+                if any(s.get("r") == "pending" and s.get("t") != "c" for s in sc.get("steps", [])):
+                    parked += 1
+                if o.get("outcome") != "rows":
+                    rep.mismatch({"family": "dfs", "query": name, "observed": o.get("outcome"),
+                                  "msg": vlib.re.sub(r"\d+", "#", o.get("msg", ""))[:120]},
+                                 {"sql": sql, "choices": pre, "schedule": [(s.get("t"), s.get("r")) for s in sc.get("steps", [])]})
+                else:
+                    key = json.dumps(sorted(json.dumps(x) for x in o["rows"]))
+                    results.setdefault(key, pre)
+                # siblings along this path (positions beyond the prefix took choice 0)
+                for i in range(len(pre), len(counts)):
+                    for j in range(1, counts[i]):
+                        stack.append(pre + [0] * (i - len(pre)) + [j])
+        if len(results) > 1:
+            rep.mismatch({"family": "dfs", "query": name, "observed": "schedule-dependent-result"},
+                         {"sql": sql, "results": [{"rows": json.loads(k), "choices": v} for k, v in list(results.items())[:4]]})
+        total += leaves
+        rep.cov["families"].setdefault("dfs", {})[name] = {"leaves": leaves, "exhausted": not stack, "distinct_results": len(results)}
+    rep.cov["evaluations"] += total
+    rep.cov["distinct_nontrivial"] += parked
+
+
 def run(tier):
     rep = vlib.Report("C04", tier)
     rng = random.Random(vlib.seed())
     model_check(rep, tier)
+    exec_stack_family(rep, tier)
     det_family(rep, tier, rng)
+    dfs_family(rep, tier)
     threaded_family(rep, tier, rng)
     rep.cov["rule"] = ("MC: TaskSched.tla and HashJoinOp.tla exhaustively (invariants + liveness); S: barrier-containing "
                        "GenSelect/GenJoin queries replayed on the deterministic scheduler under first/last/consumer-first/"
